@@ -4,6 +4,8 @@ namespace Driver
 open Rdest Rdest.Swarm
 
 def c13 (args res : List String) : Verdict :=
+  -- `chb`: the same question, the advertised sets having reached the session as Bitfield messages
+  let args := match args with | "chb" :: t => "ch" :: t | a => a
   match args, res with
   | ["ch", sts, peers, target], [answers] =>
     match parseStatuses sts, target.toNat? with
